@@ -1,10 +1,11 @@
 """C04 Exceptions transfer control to the right handler and preserve program state."""
 from hypothesis import strategies as st
 
-from ..lang import gen, printer
+from ..lang import gen, printer, shadow
 from ..oracle import compare_model
 from ..runner import Outcome
 from .common import run_model, short
+from . import implicit
 
 PROPERTY = "C04"
 LEVEL = "exploration"
@@ -20,7 +21,8 @@ RULE = ("Hypothesis draws a core-grammar program in which ~30% of statements are
         "catches an error of its own (before or after reporting through a channel, or both) and ends while main, which "
         "may just have caught an error itself, waits for the report. Compared with the reference evaluator on debug and release workers. "
         "Non-trivial: an error crossed >= 1 call frame to its handler, or a try was left by break/continue/return and "
-        "an error was raised afterwards (model trace); distinct by program text.")
+        "an error was raised afterwards (model trace); distinct by program text. "
+        "In one program in four up to two user declarations (variables, parameters, classes) are renamed to builtin class names the program text does not mention (Object, Error, List, ...: pbt/lang/shadow.py globalize): what the language does implicitly (the superclass of a class that names none, the class of a blank catch, literals) must not go through the user's scope.")
 ASSUMPTIONS = ["reference evaluator's exception semantics (nearest dynamically enclosing matching handler, catch "
                "clauses tried in order, variables keep their values)", "error messages of runtime faults are not "
                "compared, only classes; explicit raise messages are program supplied and are compared when printed"]
@@ -37,11 +39,28 @@ def cases(tier):
 
 
 def strategy(hazards):
-    return gen.exc_program(gen.Cfg(max_depth=3, p_confuse=0, exceptions=True, exc_fibers=True, hazards=hazards))
+    # second / third component: renames of user declarations to builtin class names (pbt/lang/shadow.py globalize) and
+    # the names not handed out because of a known finding
+    banned = [n for n, h in (("Object", implicit.HAZ_OBJECT), ("Error", implicit.HAZ_ERROR)) if h in hazards]
+    return st.tuples(gen.exc_program(gen.Cfg(max_depth=3, p_confuse=0, exceptions=True, exc_fibers=True, hazards=hazards)),
+                     st.one_of(st.just([]), st.just([]), st.just([]), st.just([]), st.lists(st.integers(0, 1000), min_size=2, max_size=4)),
+                     st.just(banned))
+
+
+def extra(tier, ctx):
+    return [implicit.run_scenario(n, ctx) for n in implicit.scenarios_of(PROPERTY)]
 
 
 def run_case(case, ctx):
-    prog = case
+    renamed = []
+    if isinstance(case, tuple) and len(case) == 2 and case[0] == "implicit":
+        return implicit.run_scenario(case[1], ctx)
+    if isinstance(case, tuple) and len(case) == 3 and isinstance(case[0], list):
+        prog, gpicks, banned = case
+        if gpicks:
+            prog, renamed = shadow.globalize(prog, gpicks, printer.to_source(prog)[0], banned)
+    else:
+        prog = case  # (replay files written before the renaming pass existed hold the bare program)
     src, lines = printer.to_source(prog)
     res, why = run_model(prog, lines, fibers=True)
     if res is None:
@@ -54,6 +73,8 @@ def run_case(case, ctx):
         labels.append("caught")
     if "launch " in src:
         labels.append("fiber-catches")
+    if renamed:
+        labels.append("global-name-shadowed")
     runs = 0
     fail = None
     for variant in ("dbg", "rel"):
